@@ -318,3 +318,30 @@ def display(text):
     """drop web suffixes from a text shown to the user / used as a finding key"""
     import re
     return re.sub(r'(\w)__w\d+\b', r'\1', text)
+
+
+def reaching_values(fn):
+    """id(Name load node) -> list of the value expressions of the plain assignments `name = value` that may
+    reach that read (None in the list for a parameter, a loop / with target, an augmented or unpacking
+    assignment: a definition without a value expression of its own)"""
+    r = _Reach(fn)
+    st = {}
+    a = fn.args
+    for p in a.posonlyargs + a.args + a.kwonlyargs + ([a.vararg] if a.vararg else []) + ([a.kwarg] if a.kwarg else []):
+        key = (p.arg, id(p))
+        r.order.append(key)
+        r.def_nodes[key] = None
+        st[p.arg] = frozenset([key])
+    r.block(fn.body, st)
+    value_of = {}
+    for n in ast.walk(fn):
+        if isinstance(n, ast.Assign) and len(n.targets) == 1 and isinstance(n.targets[0], ast.Name):
+            value_of[id(n.targets[0])] = n.value
+    out = {}
+    for _i, (node, ds) in r.use_defs.items():
+        vals = []
+        for d in ds:
+            dn = r.def_nodes.get(d)
+            vals.append(value_of.get(id(dn)) if dn is not None else None)
+        out[id(node)] = vals
+    return out
